@@ -271,16 +271,47 @@ func kindOf(err error, elapsed time.Duration, s *bt.Server, panicsBefore int) (s
 	return "status", code
 }
 
+// btRobustness: engine mem | btree | disk run the emulator in-process (a handler panic is caught by the harness's
+// interceptor and reported); engine "child" runs a real cbtemulator process on a data directory, where an unrecovered
+// panic or a fatal runtime error kills the process -- observed as an aborted call and a failing probe; the process
+// is then started again on the same directory and the run goes on.
 func btRobustness(engine string, r *rand.Rand, nFuzz int) []robEvent {
 	dir := ""
-	if engine == "disk" {
+	if engine == "disk" || engine == "child" {
 		dir = tmpDir()
 	}
-	s, err := bt.Start(engine, dir)
-	if err != nil {
-		panic(err)
+	var s *bt.Server
+	var ch *child
+	parents := []string{"projects/p/instances/i"}
+	if engine == "child" {
+		c, err := startChild(dir, "", parents)
+		if err != nil {
+			panic(err)
+		}
+		ch, s = c, c.srv
+		defer func() { ch.kill(); _ = os.RemoveAll(dir) }()
+	} else {
+		var err error
+		s, err = bt.Start(engine, dir)
+		if err != nil {
+			panic(err)
+		}
+		defer s.CloseAndRemove()
 	}
-	defer s.CloseAndRemove()
+	// revive: in child mode, a dead process is started again on the same directory
+	revive := func(ev *robEvent) {
+		if ch == nil || ch.alive() {
+			return
+		}
+		ev.Kind = "abort"
+		ch.kill()
+		ev.Detail += " [the emulator process died: " + lastLines(ch.errOut.String(), 4) + "]"
+		c, err := startChild(dir, "", parents)
+		if err != nil {
+			panic(fmt.Sprintf("the emulator does not start again on its directory: %v", err))
+		}
+		ch, s = c, c.srv
+	}
 	s.AddParent("projects/p/instances/i")
 	s.SetClock(5_000_000)
 	keep := j.S(keepTable)
@@ -310,9 +341,11 @@ func btRobustness(engine string, r *rand.Rand, nFuzz int) []robEvent {
 	n := 0
 	probe := func(ev *robEvent) {
 		n++
+		dead := ch != nil && !ch.alive()
 		op := bt.Op{Ev: "MutateRow", T: keep, K: j.S("probe"), Now: 5_000_000, Muts: []bt.Mut{{M: "set", F: j.S("f"), Q: j.S("n"), Ts: 1000, V: j.S(fmt.Sprint(n))}}}
 		s.Exec(&op)
-		ev.ProbeWrite = op.Resp.Code == 0
+		ev.ProbeWrite = op.Resp.Code == 0 && !dead
+		revive(ev)
 		rd := bt.Op{Ev: "ReadRows", T: keep}
 		s.Exec(&rd)
 		ev.ProbeRead = rd.Resp.Code == 0
@@ -335,8 +368,51 @@ func btRobustness(engine string, r *rand.Rand, nFuzz int) []robEvent {
 		probe(&ev)
 		out = append(out, ev)
 	}
+	if ch != nil {
+		// a client that walks away from a large scan (more than the flow-control windows hold) after its first message
+		big := "projects/p/instances/i/tables/big"
+		cr := bt.Op{Ev: "CreateTable", T: j.S(big), Parent: j.S("projects/p/instances/i"), Fams: []bt.FamDef{{F: j.S("f"), Rule: bt.Rule{T: "none"}}}}
+		s.Exec(&cr)
+		val := bytes.Repeat([]byte("x"), 4096)
+		for lo := 0; lo < 4000; lo += 500 {
+			req := &btpb.MutateRowsRequest{TableName: big}
+			for i := lo; i < lo+500; i++ {
+				req.Entries = append(req.Entries, &btpb.MutateRowsRequest_Entry{RowKey: []byte(fmt.Sprintf("r%05d", i)), Mutations: []*btpb.Mutation{
+					{Mutation: &btpb.Mutation_SetCell_{SetCell: &btpb.Mutation_SetCell{FamilyName: "f", ColumnQualifier: []byte("q"), TimestampMicros: 1000, Value: val}}}}})
+			}
+			ctx, cancel := context.WithTimeout(context.Background(), 60*time.Second)
+			if st, err := s.Data.MutateRows(ctx, req); err == nil {
+				for {
+					if _, err := st.Recv(); err != nil {
+						break
+					}
+				}
+			}
+			cancel()
+		}
+		for round := 0; round < 3; round++ {
+			ctx, cancel := context.WithTimeout(context.Background(), 25*time.Second)
+			t0 := time.Now()
+			st, err := s.Data.ReadRows(ctx, &btpb.ReadRowsRequest{TableName: big})
+			if err == nil {
+				_, err = st.Recv()
+			}
+			cancel() // abandon the stream
+			time.Sleep(300 * time.Millisecond)
+			ev := robEvent{Class: "abandoned/ReadRows", Ev: "Raw", Req: "ReadRows of a 16 MB table, cancelled by the client after the first response message"}
+			ev.Kind, ev.Code = kindOf(err, time.Since(t0), s, len(s.Panics))
+			probe(&ev)
+			out = append(out, ev)
+		}
+		dr := bt.Op{Ev: "DeleteTable", T: j.S(big)}
+		s.Exec(&dr)
+		before = snapshot()
+	}
 	// degenerate GC rules: accepted or rejected, but a pass must not crash
 	for i, rule := range btGcPerturbations() {
+		if ch != nil {
+			break // a GC pass can only be forced in-process
+		}
 		tn := fmt.Sprintf("projects/p/instances/i/tables/gc%d", i)
 		ev := robEvent{Class: "gc-rule/" + fmt.Sprint(rule), Ev: "Raw"}
 		func() {
@@ -417,7 +493,9 @@ func btRobustness(engine string, r *rand.Rand, nFuzz int) []robEvent {
 						err = status.Errorf(codes.Code(99), "PANIC in GC pass: %v", rec)
 					}
 				}()
-				s.Exec(&g)
+				if ch == nil {
+					s.Exec(&g)
+				}
 			}()
 		default:
 			class = "fuzz/DropRowRange"
@@ -501,6 +579,9 @@ func gcsPerturbations() []gcsPert {
 	add("resume/range-mismatch", "PUT", "/upload/storage/v1/b/keep/o?upload_id={ID}", map[string]string{"Content-Range": "bytes 0-9/10"}, "x", true)
 	add("resume/negative-range", "PUT", "/upload/storage/v1/b/keep/o?upload_id={ID}", map[string]string{"Content-Range": "bytes -5--1/10"}, "x", true)
 	add("resume/huge-range", "PUT", "/upload/storage/v1/b/keep/o?upload_id={ID}", map[string]string{"Content-Range": "bytes 99999999999999999999-99999999999999999999/1"}, "x", true)
+	add("resume/huge-total", "PUT", "/upload/storage/v1/b/keep/o?upload_id={ID}", map[string]string{"Content-Range": "bytes 0-0/9223372036854775807"}, "x", true)
+	add("resume/huge-total-query", "PUT", "/upload/storage/v1/b/keep/o?upload_id={ID}", map[string]string{"Content-Range": "bytes */9223372036854775807"}, "", true)
+	add("resume/total-overflow", "PUT", "/upload/storage/v1/b/keep/o?upload_id={ID}", map[string]string{"Content-Range": "bytes 0-0/99999999999999999999"}, "x", true)
 	add("resume/gap", "PUT", "/upload/storage/v1/b/keep/o?upload_id={ID}", map[string]string{"Content-Range": "bytes 50-50/100"}, "x", true)
 	add("resume/inverted-range", "PUT", "/upload/storage/v1/b/keep/o?upload_id={ID}", map[string]string{"Content-Range": "bytes 5-3/10"}, "", true)
 	add("compose/bad-json", "POST", "/storage/v1/b/keep/o/dst/compose", jsn, `{`, true)
@@ -783,7 +864,7 @@ func checkC20(c *Ctx) {
 	var evs []robEvent
 	var mu sync.Mutex
 	var wg sync.WaitGroup
-	for _, eng := range []string{"mem", "disk", "btree"} {
+	for _, eng := range []string{"mem", "disk", "btree", "child"} {
 		wg.Add(1)
 		go func(eng string, seed int64) {
 			defer wg.Done()
@@ -817,7 +898,7 @@ func checkC20(c *Ctx) {
 		return
 	}
 	c.AddModel(1, int64(len(pairs["bt"])+len(pairs["gcs"])))
-	c.AddTraces(5, int64(len(evs)))
+	c.AddTraces(6, int64(len(evs)))
 	classes := map[string]bool{}
 	for _, e := range evs {
 		c.AddEval(1)
@@ -1052,3 +1133,11 @@ func init() {
 }
 
 func raceFinding(pair [3]string, report string) string { return "" }
+
+func lastLines(s string, n int) string {
+	ls := strings.Split(strings.TrimSpace(s), "\n")
+	if len(ls) > n {
+		ls = ls[len(ls)-n:]
+	}
+	return strings.Join(ls, " | ")
+}
